@@ -8,7 +8,7 @@ from __future__ import annotations
 import itertools as it
 
 from vlib.client import ClientRig, Raw
-from vlib.explore import Violation
+from vlib.explore import Violation, is_symbolic_value
 from vlib.server import ELEMENTS, Rig, element
 from vlib.wire import KINDS, UNDECODABLE, Box, Wire, build, obj, same_json
 
@@ -89,7 +89,7 @@ def _strip(doc):
     if isinstance(doc, list):
         return [_strip(d) for d in doc]
     if isinstance(doc, dict) and isinstance(doc.get('error'), dict) and isinstance(doc['error'].get('data'), str) \
-            and type(doc['error']['data']) is not str:          # concrete texts (e.g. the reason a batch was rejected) ARE compared
+            and is_symbolic_value(doc['error']['data']):          # concrete texts (e.g. the reason a batch was rejected) ARE compared
         e = {k: v for k, v in doc['error'].items() if k != 'data'}
         return {**{k: v for k, v in doc.items() if k != 'error'}, 'error': {**e, 'data': '<text>'}}
     return doc
